@@ -115,6 +115,49 @@ def run(check, prog):
     r11_shared_base_samples(check, prog)
     r12_complex_prior(check, prog)
     r13_unsupported_operands(check, prog)
+    r14_refusal_propagates(check, prog)
+
+
+def r14_refusal_propagates(check, prog):
+    """R14: "a derived prior has no density of its own" is an error the library
+    raises (NotImplementedError in Prior.lnprob / TransformedPrior.lnprob / prob);
+    no density method of a prior class swallows it.  A handler in a density method
+    names the one condition it is for -- a fixed number has no `lnprob` attribute:
+    AttributeError -- and nothing that also covers the refusal (a bare `except`,
+    Exception, NotImplementedError, RuntimeError): with the refusal swallowed, a
+    complex prior with a derived part reports the density of a fixed number,
+    non-zero outside its support."""
+    m = prog.modules['holopy.core.prior']
+    TOO_WIDE = {'NotImplementedError', 'RuntimeError', 'Exception', 'BaseException'}
+    n = 0
+    for cls in [x for x in m.tree.body if isinstance(x, ast.ClassDef)]:
+        for fd in [x for x in cls.body if isinstance(x, ast.FunctionDef)
+                   and x.name in ('lnprob', 'prob')]:
+            for node in ast.walk(fd):
+                if not isinstance(node, ast.Try):
+                    continue
+                for h in node.handlers:
+                    n += 1
+                    types = []
+                    if h.type is None:
+                        types = ['<bare except>']
+                    else:
+                        for t in (h.type.elts if isinstance(h.type, ast.Tuple)
+                                  else [h.type]):
+                            types.append(ast.unparse(t).rpartition('.')[2])
+                    wide = [t for t in types if t in TOO_WIDE or t == '<bare except>']
+                    reraises = any(isinstance(x, ast.Raise) for x in ast.walk(h))
+                    check.require(not wide or reraises, 'R14-refusal-propagates',
+                                  '%s.%s handler at line %d' % (cls.name, fd.name,
+                                                                h.lineno),
+                                  'the handler is for a part without a density method '
+                                  '(AttributeError), not for a refusal to give one',
+                                  '%s:%d' % (m.relpath, h.lineno),
+                                  fail_detail='catches %s: the NotImplementedError of a '
+                                  'derived prior is swallowed and the part counted as a '
+                                  'fixed number -- ComplexPrior(2 * Uniform(1, 2), '
+                                  '0.5).prob(100 + 0.5j) is 1.0' % ', '.join(wide))
+    check.floor('R14 handlers in density methods of prior classes', n, 2)
 
 
 def r13_unsupported_operands(check, prog):
